@@ -115,7 +115,8 @@ type transition struct {
 	caseIdx int  // select case index; -1 default; 0 otherwise
 	peer    *gor // rendezvous partner (receiver) or nil
 	peerCase int
-	objs    []int
+	objs    []int // objects modified (or whose state change matters both ways)
+	robjs   []int // objects only inspected (other select cases, atomic loads)
 	readOnly bool
 	key     string
 }
@@ -316,17 +317,30 @@ func (s *scheduler) enabled() []transition {
 					objs = append(objs, c.ch.id)
 				}
 			}
+			others := func(i int) []int {
+				var r []int
+				for j, c := range p.cases {
+					if j != i && c.ch != nil && c.ch != p.cases[i].ch {
+						r = append(r, c.ch.id)
+					}
+				}
+				return r
+			}
 			any := false
 			for i, c := range p.cases {
 				if c.ch == nil {
 					continue
 				}
 				if c.send {
-					if addSend(g, i, c.ch, objs) {
+					n0 := len(ts)
+					if addSend(g, i, c.ch, []int{c.ch.id}) {
 						any = true
+						for k := n0; k < len(ts); k++ {
+							ts[k].robjs = others(i)
+						}
 					}
 				} else if chanRecvReady(c.ch) {
-					ts = append(ts, transition{g: g, caseIdx: i, objs: objs})
+					ts = append(ts, transition{g: g, caseIdx: i, objs: []int{c.ch.id}, robjs: others(i)})
 					any = true
 				}
 			}
@@ -357,13 +371,13 @@ func (s *scheduler) enabled() []transition {
 					}
 				}
 				if !senderWaiting {
-					ts = append(ts, transition{g: g, caseIdx: -1, objs: objs})
+					ts = append(ts, transition{g: g, caseIdx: -1, robjs: objs})
 				}
 			}
 		case opCtxCancel:
 			ts = append(ts, transition{g: g, objs: p.ctx.allDoneIDs()})
 		case opAtomicLoad:
-			ts = append(ts, transition{g: g, objs: []int{p.obj.id}, readOnly: true})
+			ts = append(ts, transition{g: g, robjs: []int{p.obj.id}, readOnly: true})
 		case opAtomicStore, opEvent, opUnlock, opWgAdd:
 			ts = append(ts, transition{g: g, objs: []int{p.obj.id}})
 		case opLock:
@@ -399,12 +413,19 @@ func independent(a, b *transition) bool {
 	if a.g == b.g || (a.peer != nil && (a.peer == b.g || a.peer == b.peer)) || (b.peer != nil && b.peer == a.g) {
 		return false
 	}
-	for _, x := range a.objs {
-		for _, y := range b.objs {
-			if x == y && !(a.readOnly && b.readOnly) {
-				return false
+	inter := func(xs, ys []int) bool {
+		for _, x := range xs {
+			for _, y := range ys {
+				if x == y {
+					return true
+				}
 			}
 		}
+		return false
+	}
+	// write/write and write/read conflicts make two transitions dependent; read/read does not
+	if inter(a.objs, b.objs) || inter(a.objs, b.robjs) || inter(a.robjs, b.objs) {
+		return false
 	}
 	return true
 }
